@@ -181,6 +181,7 @@ impl Check for HistoryCheck {
             }
             // old handles can be extracted from (every 4th step and at the end)
             if (k % 4 == 3 || k + 1 == run.ops.len()) && !s.tracked.is_empty() {
+                let _ph = crate::exec::phase("C13");
                 let ex = catch_op(|| -> Option<Violation> {
                     let ext = Extractor::<LS, AstSize>::new(&s.eg, AstSize);
                     for i in 0..s.tracked.len() {
